@@ -186,6 +186,28 @@ Theorem C06_rewrite_path_exact_top :
 Proof. exact rewrite_path_exact_top. Qed.
 Print Assumptions C06_rewrite_path_exact_top.
 
+(* validators that are parsers are bounded from above (tie: no accepted perturbation of the samples, near misses such
+   as an IPv6 zone included, may fall outside the bound).  accessControl allow / deny entries (net.ParseCIDR /
+   net.ParseIP) are plain words; *)
+Theorem C06_ip_or_cidr_word : forall s, matches ip_or_cidr_upper s = true -> in_class CWord s.
+Proof. exact ip_or_cidr_word. Qed.
+Print Assumptions C06_ip_or_cidr_word.
+
+(* a regular-expression route path, as generatePath (model gen_path, compared with the real function every run) writes
+   it after location: the modifier and ONE quoted word, with or without a space after the modifier in the resource;
+   and every route path the validator can accept yields no structural event at that site *)
+Theorem C06_regex_path_quoted :
+  forall r, matches escaped (String "~" r) = true ->
+    run QBetween (gen_path (String "~" r)) = (QNeedSpace, [TokEnd; TokEnd]).
+Proof. exact regex_path_quoted. Qed.
+Print Assumptions C06_regex_path_quoted.
+
+Theorem C06_route_path_location_safe :
+  forall p, matches route_path_upper p = true ->
+    exists q' e, run QBetween (gen_path p) = (q', e) /\ structural e = [] /\ In q' [QBare; QVar; QNeedSpace].
+Proof. exact route_path_location_safe. Qed.
+Print Assumptions C06_route_path_location_safe.
+
 (* sizes, offsets and rates are plain words *)
 Theorem C06_size_word : forall s, matches size s = true -> in_class CWord s.
 Proof. exact size_word. Qed.
